@@ -1626,6 +1626,13 @@ func containsOperatorsOutsideFunctions(expr string) bool {
 	if match := regexp.MustCompile(`^[A-Za-z_][A-Za-z0-9_]*\s*\([^)]*\)$`).FindString(trimmed); match == trimmed {
 		return false
 	}
+	// The same holds when the argument itself contains parentheses, e.g. SUM((t + 1) * 2):
+	// the parenthesis opened right after the function name closes at the very end.
+	if loc := regexp.MustCompile(`^[A-Za-z_][A-Za-z0-9_]*\s*\(`).FindStringIndex(trimmed); loc != nil {
+		if findMatchingParenInternal(trimmed, loc[1]-1) == len(trimmed)-1 {
+			return false
+		}
+	}
 
 	// Check for operators
 	return containsOperators(expr)
